@@ -139,4 +139,16 @@ PROPS.update({
                   "key was issued with, also after restart (coherence, C02). Freshness across delete + re-create is false of the code "
                   "(kernel-checked counterexample: the counter travels with an older file) = known finding. The harness keeps every key ever "
                   "returned and its ordinal and re-queries them."),
+    "C12": wallet("C12", "Proof (Lean 4) of the transaction discipline: for every list of bucket writes and every fault (failed write, crash at a "
+                  "write, failed commit, crash after commit) db.Update leaves the store with none or all of the writes when the closure "
+                  "propagates errors; a reported error leaves memory unchanged when the closure assigns no in-memory state (kernel-checked "
+                  "counterexamples for both premises); the premises are regenerated structural facts about every wallet method (one Update, "
+                  "no swallowed error, no assignment in the closure) decided by `decide`; lifted to the wallet model (C12_atomic, "
+                  "C12_opens_after). Correspondence = exhaustive fault enumeration on the real code: every bucket write and the commit of "
+                  "every operation of generated histories is cut in all four ways behind a fault-injecting db.DB, the reopened wallet is "
+                  "compared with the model and with the pre/post images.",
+                  {"props": ["MassVerif.Props.C12"],
+                   "harnesses": [{"name": "walletfault", "pkg": "harness/wallet", "driver": "MassVerif/Driver/Wallet.lean",
+                                  "quick": {"n": 1, "len": 3, "focus": "C12"}, "thorough": {"n": 25, "len": 5, "focus": "C12"},
+                                  "search": {"n": 4, "len": 4, "focus": "C12"}, "timeout": 3000}]}),
 })
